@@ -91,7 +91,7 @@ SvcChoices ==
                                   <<[camel |-> "BookAdmin", snake |-> "book_admin"], [camel |-> "Library", snake |-> "library"]>>}
 KindChoices ==
   CASE Scope = "subpkg"  -> {<<"unary">>, <<"paged", "lro">>}
-    [] Scope = "names"   -> {<<"unary">>, <<"unary", "paged">>}
+    [] Scope = "names"   -> {<<"unary">>, <<"unary", "paged">>, <<>>}      \* <<>>: services that declare no RPC at all
     [] Scope = "ads"     -> {<<"unary">>, <<"unary", "paged">>}
     [] Scope = "shapes"  -> Singles(MethodKinds) \cup {<<"unary", k>> : k \in MethodKinds \ {"unary"}}
     [] Scope = "options" -> {<<"unary", "paged">>}
